@@ -47,6 +47,7 @@ class Interp(Engine):
 
         def thunk():
             self.fresh_ctr = 0
+            self.call_log = {}
             frame = Frame(mod.__dict__, None, contract.qualname, contract.modname)
             frame.contract = contract
             frame.loops = self.cur_loops
@@ -69,7 +70,7 @@ class Interp(Engine):
             self.entry_args = dict((k, self.replay_copy(v)) for k, v in args.items())
             self.entry_snap = dict(("_old_" + k, self.snapshot(v)) for k, v in args.items())
             if contract.requires is not None:
-                for _, e in conjuncts(call_by_names(contract.requires, args)):
+                for _, e in conjuncts(call_by_names(contract.requires, dict(args, _engine=self))):
                     self.run.pc.append(e)
             is_gen = any(isinstance(n, (ast.Yield, ast.YieldFrom)) for n in _walk_fn(fs.node))
             frame.is_gen = is_gen
@@ -90,6 +91,8 @@ class Interp(Engine):
             avail.update(self.entry_snap)
             avail["result"] = result
             avail["_engine"] = self
+            avail["_locals"] = dict(frame.vars)
+            avail["_any_k"] = SInt(z3.Int(self.fresh("_any_k")))
             avail["_ny"] = frame.ny
             avail["_ys"] = frame.ys
             for kname, kv in frame.vars.items():
@@ -672,6 +675,11 @@ class Interp(Engine):
             raise Unsupported("for loop at line %d over a sequence of symbolic length needs an invariant" % s.lineno)
         ln = s.lineno
         gk = shared.pos if shared is not None else 0
+        for nm in sorted(spec.havoc):
+            if nm not in f.vars:
+                # a loop variable that is unbound before the loop: give it an arbitrary value so that the
+                # invariant (which must not depend on it for _k == 0) can be evaluated
+                f.vars[nm] = self.havoc_value(nm, None, spec)
         self.prove(call_by_names(spec.invariant, self.inv_env(f, {"_k": gk})), "loop%d-entry" % k, ln)
         self.cut_prepare(s, f, spec, extract.assigned_names([ast.Assign(targets=[s.target], value=ast.Constant(0))]))
         if shared is not None:
@@ -1295,6 +1303,13 @@ class Interp(Engine):
         kwdefaults = dict(fn.__kwdefaults__ or {})
         vals = self.bind_args(fs.node.args, defaults, kwdefaults, args, kwargs, node, fn.__name__)
         fr = Frame(fn.__globals__, None, fn.__qualname__, fn.__module__)
+        if fn.__closure__:
+            # free variables of a real nested function: the values captured by the real closure cells
+            for nm, cell in zip(fn.__code__.co_freevars, fn.__closure__):
+                try:
+                    fr.vars[nm] = cell.cell_contents
+                except ValueError:
+                    pass
         fr.vars.update(vals)
         fr.loops = extract.loops_of(fs.node)
         fr.contract = c if (c is not None and c.inline) else None
@@ -1303,6 +1318,8 @@ class Interp(Engine):
     def call_by_contract(self, c, fn, args, kwargs, node, f):
         fs = extract.find_function(c.modname, c.qualname)
         vals = self.bind_args(fs.node.args, list(fn.__defaults__ or ()), dict(fn.__kwdefaults__ or {}), args, kwargs, node, fn.__name__)
+        self.call_log = getattr(self, "call_log", None) or {}
+        self.call_log.setdefault(c.target, []).append(dict(vals))
         ln = getattr(node, "lineno", 0)
         if c.requires is not None:
             self.prove(call_by_names(c.requires, dict(vals, _engine=self)), "pre-of-%s" % c.qualname, ln)
@@ -1321,14 +1338,43 @@ class Interp(Engine):
                 if c.effect is not None:
                     c.effect(self, vals, None, et)
                 raise PyRaise(et, "by contract of %s" % c.qualname, node)
+        if c.kind == "generator" and c.yield_seq and c.yields_eq is not None and c.yield_count is None:
+            # whole-sequence contract: the generated values are the spec sequences, component-wise
+            seqs = call_by_names(c.yields_eq, avail)
+            dec = getattr(c, "yield_decode", None)
+            ln = z3.Length(seqs[0].e)
+
+            def getq(i, seqs=seqs, dec=dec):
+                comps = tuple(SInt(sq.e[_ie(i)]) for sq in seqs)
+                return dec(comps) if dec is not None else (comps if len(comps) > 1 else comps[0])
+            return SSeq(ln, getq, kind="list")
         if c.kind == "generator":
             cnt = call_by_names(c.yield_count, avail)
             ya = c.yield_at
+            cache = {}
 
-            def get(i, avail=avail, ya=ya):
+            def get(i, avail=avail, ya=ya, c=c, cache=cache):
                 a2 = dict(avail)
                 a2["_k"] = SInt(i) if not isinstance(i, SInt) else i
-                return call_by_names(ya, a2)
+                if ya is not None:
+                    return call_by_names(ya, a2)
+                # contract by per-element postcondition: element i is a fresh value of the declared shape about
+                # which exactly the call-site postcondition is assumed (memoised per index term)
+                ie = z3.simplify(_ie(i))
+                key = ie.get_id()
+                if key in cache:
+                    return cache[key][1]
+                if c.yield_fresh is None:
+                    raise Unsupported("generator contract of %s has neither yield_at nor yield_fresh" % c.qualname)
+                elem, hs = c.yield_fresh(self, self.fresh("elem"))
+                for h in hs:
+                    self.run.pc.append(h)
+                cache[key] = (ie, elem)
+                a2["value"] = elem
+                post = c.yield_post_call if c.yield_post_call is not None else c.yield_post
+                for _, e in conjuncts(call_by_names(post, a2)):
+                    self.run.pc.append(e)
+                return elem
             if isinstance(cnt, SInt):
                 self.run.pc.append(cnt.e >= 0)
             return SSeq(cnt.e if isinstance(cnt, SInt) else cnt, get, kind="list")
@@ -1763,8 +1809,12 @@ def _m_dict(self, args, kwargs, node, f):
         if isinstance(v, HMap):
             return v
         if isinstance(v, SSeq) and not isinstance(v.length, int):
-            c = getattr(self.current, "dict_of", None)
-            raise Unsupported("dict() of a sequence of symbolic length")
+            # dict(<sequence of (int, int) pairs of symbolic length>): an abstract int -> int map that remembers
+            # the sequence it was built from (only plumbing is proved about it)
+            m = HMap(self.fresh("dict"))
+            m.source = v
+            self.assumed.add("dict(<generated (offset, line) pairs>) is modelled as an abstract int -> int map tied to the sequence it was built from (builtin dict semantics trusted)")
+            return m
         for kv in self.unpack_iter(v, None, node):
             k, val = self.unpack_iter(kv, 2, node)
             if is_sym(k):
